@@ -171,12 +171,112 @@ def plan(tier):
     add("custom", "enter,at-custom,any")
     add("at-at", "at4,any,at4,any")
     add("late-region", "off,any,any", late=1)
+    for st_ in ("disabled", "outside", "inside"):
+        cov = ["start-" + st_] + ["at-" + a for a in IND_AT] + ["shape-" + s.tag for s in IND_SHAPES]
+        out.append(Scenario("ind-" + st_, scen_ind, params={"start": st_, "kinds": "r"}, cover=cov,
+                            bounds={"K": "1 step from an arbitrary invariant state (all history lengths)",
+                                    "items": IND_AT + [s.tag for s in IND_SHAPES]},
+                            excludable=[KF_REL_EXIT, KF_ENTER_Z, KF_SYNTH_E_REL]))
     if tier == "thorough":
         add("off-moves-on-move", "off,moves,moves,on,any", "rd")
         add("at6-at6", "at,any,at,any")
         add("enter-off-moves-on-move", "enter,off,moves,on,any", "rd")
         add("at-custom-2", "at-custom,any,at-custom,any")
     return out
+
+
+# ---- inductive step -------------------------------------------------------------------------------------------------
+IND_SHAPES = [S("G1", "X# Y#"), S("G0", "X#"), S("G1", "Y# E#"), S("G1", "Z#"), S("G1", "X# Y# Z# E#"), S("G1", "E#"),
+              S("G91"), S("G90"), S("G20"), S("G21"), S("M105"), S("G10", ""), S("G11", "")]
+IND_AT = ["OFF", "ON", "BOGUS", "OTHER", "C_OFF", "C_ON", "C_NOMATCH"]
+
+
+def scen_ind(w, start="disabled", kinds="r"):
+    """ONE step (a G-code command or an @-command) from an arbitrary invariant state:
+         start = "disabled": exclusion disabled, not excluding;  "outside": enabled, outside an episode;
+                 "inside": enabled, inside an episode (see harness/inductive.py for the coupling invariant).
+    Obligations: the step obligations of C14 and the invariant afterwards (tracked frame = file's frame in every
+    state -- position keeps being tracked while disabled)."""
+    at_cfg = list(pu.DEFAULT_AT) + [{"command": c, "parameterPattern": p, "action": a, "description": ""}
+                                    for c, p, a in CUSTOM_ACTIONS]
+    plugin = pu.make_plugin(w, at=at_cfg)
+    pu.fire(plugin, "PRINT_STARTED")
+    pipe = pl.Pipe(w, plugin=plugin)
+    kind = "rect" if (kinds == "r" or w.choose(2, "rkind") == 0) else "disc"
+    pipe.add_region(pl.fresh_region(w, kind, "r0"))
+    if start == "inside":
+        pipe.havoc_excluding()
+    else:
+        pipe.havoc_not_excluding()
+    V, P, st = pipe.V, pipe.P, pipe.state
+    if start == "disabled":
+        st._exclusionEnabled = False
+        pipe.enabled = False
+    w.cover("start-" + start)
+    nitems = len(IND_SHAPES) + len(IND_AT)
+    sel = w.choose(nitems, "item")
+    pz0 = P.z
+    if sel >= len(IND_SHAPES):
+        item = IND_AT[sel - len(IND_SHAPES)]
+        cmd, params = AT[item]
+        streaming = w.flag("streaming")
+        comm = pu.CommStub(streaming)
+        w.cover("at-" + item)
+        effect = None if streaming else EFFECT.get(item)
+        was_enabled, was_excluding, ep_before = pipe.enabled, st.excluding, pipe.ep
+        if effect is False and was_enabled and not V.abs_xyz and KF_REL_EXIT in w.excluded:
+            w.assume(alg.not_(ep_before))
+        plugin.handleAtCommandQueuing(comm, "queuing", cmd, params)
+        desc = "inductive step from state %s: @%s %s%s -> sendCommand %r" % (start, cmd, params,
+                                                                            " [streaming]" if streaming else "", comm.sent)
+        if effect is None:
+            same = (st.excluding == was_excluding and st.isExclusionEnabled() == was_enabled)
+            if not w.check(len(comm.sent) == 0 and same, "non-matching-or-streaming-changes-nothing", desc):
+                return
+        else:
+            pipe.enabled = effect
+            if effect is False and was_enabled:
+                pipe.ep = False
+                for c in comm.sent:
+                    P.execute(c)
+                sync = alg.and_(alg.eq(P.x, V.x), alg.eq(P.y, V.y), alg.eq(P.z, V.z), P.abs_xyz == V.abs_xyz, P.u == V.u)
+                if not w.check(alg.implies(ep_before, sync), "disable-mid-episode-resynchronises", desc):
+                    return
+                if not w.check(st.excluding is False, "disable-closes-episode-at-once", desc):
+                    return
+            elif not w.check(len(comm.sent) == 0, "enable-or-repeated-disable-sends-nothing", desc):
+                return
+        if not w.check(st.isExclusionEnabled() == pipe.enabled, "enabled-flag-follows-effective-commands", desc):
+            return
+    else:
+        shape = IND_SHAPES[sel]
+        w.cover("shape-" + shape.tag)
+        text, _ = pl.render(w, shape, 0)
+        rec = pipe.begin(text)
+        leaving = alg.and_(rec.ep_before, alg.not_(rec.dest_inside)) if (rec.is_move and pipe.enabled) else False
+        if rec.is_move and not V.abs_xyz and KF_REL_EXIT in w.excluded:
+            w.assume(alg.not_(leaving))
+        rec = pipe.finish()
+        if rec.raised is not None:
+            w.fail("handler-raised", "%s raised %r" % (text, rec.raised))
+            return
+        desc = "inductive step from state %s: %r -> %r" % (start, text, rec.result)
+        if not pipe.enabled:
+            ok = rec.result is None or (isinstance(rec.result, list) and rec.result == [text])
+            if not w.check(ok, "forwarded-unchanged-while-disabled", desc):
+                return
+        elif rec.is_move:
+            if not w.check(alg.iff(rec.ep_after, rec.excluding_after), "decision-from-true-position", desc):
+                return
+    # ---- invariant afterwards: the tracked frame equals the file's frame in EVERY state
+    inv = [pipe.tracked_equals_file(include_e=True), (P.abs_xyz == V.abs_xyz) and (P.u == V.u)]
+    if not st.excluding:
+        inv += [alg.eq(P.x, V.x), alg.eq(P.y, V.y)]
+    w.check(alg.and_(*inv), "invariant-re-established", "inductive step from state %s (item %d)" % (start, sel))
+
+
+for _st in ("disabled", "outside", "inside"):
+    SCENARIOS["ind-" + _st] = scen_ind
 
 
 plan("thorough")
